@@ -980,7 +980,21 @@ class Interp:
 
                 def elem(j, seq=seq, s=s, node=node, gen=gen):
                     return self.spec_eval_with(node.elt, s, gen.target, self.seq_elem(seq, j))
-                yield SList(elem=elem, length=n), s
+                out = SList(elem=None, length=n)
+                oid = out.oid
+
+                def elem2(j, elem=elem, oid=oid):
+                    # objects created by the element expression are materialised as elements of the new
+                    # list (views owned by it), so that later stores through them are kept
+                    v = elem(j)
+                    if isinstance(v, SObj) and '__owner' not in v.fields and not v.frozen:
+                        w = SObj(v.cls, dict(v.fields), frozen=True)
+                        w.fields['__owner'] = oid
+                        w.fields['__idx'] = j
+                        return w
+                    return v
+                out.elem = elem2
+                yield out, s
 
     def _comp_concrete(self, node, gen, seq, n, st):
         def go(i, acc, s):
@@ -1310,29 +1324,61 @@ class Interp:
             return
         self.err(node, f'call of {fv!r}')
 
-    def opaque_uf(self, fv):
+    def opaque_uf(self, fv, sorts=None):
         info = self.index.info_for_pyfunc(fv)
         n = len(info.node.args.args)
         key = fv.__name__
         if key not in self.ctx.opaque_ufs:
-            self.ctx.opaque_ufs[key] = (z3.Function(key, *([z3.RealSort()] * n + [z3.BoolSort()])), fv, n)
+            # parameter sorts: annotation 'list' -> array of reals, otherwise real
+            sorts = []
+            for a in info.node.args.args:
+                ann = ast.unparse(a.annotation) if a.annotation is not None else ''
+                sorts.append(z3.ArraySort(z3.IntSort(), z3.RealSort()) if 'list' in ann else
+                             (z3.IntSort() if ann == 'int' else z3.RealSort()))
+            self.ctx.opaque_ufs[key] = (z3.Function(key, *(list(sorts) + [z3.BoolSort()])), fv, n)
         return self.ctx.opaque_ufs[key][0]
+
+    def opaque_arg(self, a, node):
+        if isinstance(a, SList):
+            if a.concrete:
+                if not all(is_num(x) for x in a.items):
+                    self.err(node, 'opaque predicate applied to a list of non-numbers')
+                arr = z3.K(z3.IntSort(), z3.RealVal(0))
+                for k, x in enumerate(a.items):
+                    arr = z3.Store(arr, k, zreal(x))
+                return arr
+            base = getattr(a.elem, 'base_array', None)
+            if base is None:
+                self.err(node, 'opaque predicate applied to a list that is not a plain array')
+            return base
+        return zreal(a)
 
     def opaque_app(self, fv, args, kwargs, node):
         if kwargs:
             self.err(node, 'keyword arguments to an opaque predicate')
-        uf = self.opaque_uf(fv)
-        return mk_bool(uf(*[zreal(a) for a in args]))
+        zs = [self.opaque_arg(a, node) for a in args]
+        uf = self.opaque_uf(fv, [z.sort() for z in zs])
+        for i, z in enumerate(zs):
+            if uf.domain(i).kind() == z3.Z3_INT_SORT:
+                zs[i] = zval(args[i]) if num_is_int(args[i]) else z3.ToInt(z)
+        return mk_bool(uf(*zs))
 
     def reveal_axiom(self, fv, st):
         """forall args. P(args) == definition(args), instantiated by pattern P(args) only"""
         uf = self.opaque_uf(fv)
         info = self.index.info_for_pyfunc(fv)
         names = [a.arg for a in info.node.args.args]
-        vs = [z3.Real(self.ctx.fresh_name(f'rv_{n}')) for n in names]
+        vs = [z3.Const(self.ctx.fresh_name(f'rv_{n}'), uf.domain(i)) for i, n in enumerate(names)]
         call = ast.parse(f'__p({", ".join("__a%d" % i for i in range(len(vs)))})', mode='eval').body
         extra = {'__p': fv}
-        extra.update({f'__a{i}': SNum(v) for i, v in enumerate(vs)})
+        for i, v in enumerate(vs):
+            if z3.is_array(v):
+                def elem(j, v=v):
+                    return SNum(z3.Select(v, zval(j)))
+                elem.base_array = v
+                extra[f'__a{i}'] = SList(elem=elem, length=SNum(z3.Int(self.ctx.fresh_name('rv_len'))))
+            else:
+                extra[f'__a{i}'] = SNum(v)
         self.ctx.reveal_depth += 1
         try:
             body = self.spec_bool(call, st, extra=extra)
